@@ -78,6 +78,33 @@ def make_case(rng, kind, t, start=None, exhaustive=None):
         # the exporter's maxlevel attribute is changed between the iterations: the admitted set grows or shrinks,
         # identifiers handed out earlier stay valid and distinct
         c["maxlevel_seq"] = [rng.choice([m, 1, 2, 2, 2, 3]), rng.choice([None, None, None, 1, 3, 5])]
+    elif c["iterations"] == 2 and exhaustive is None and rng.random() < 0.7:
+        # between the two iterations of one exporter the tree is renamed and/or the exporter's filter_/stop/maxlevel
+        # change (by assignment to the public attributes, or because the predicates read mutable state): every
+        # iteration must describe the tree and the settings in force when it runs
+        ov = {}
+        if rng.random() < 0.5:
+            nn = [[l, v] for l, v in names]
+            for e in nn:
+                if rng.random() < 0.5:
+                    e[1] = rand_name(rng, collide)
+            if kind == "dot":
+                seen = set()
+                for e in nn:
+                    while e[1] in seen:
+                        e[1] += rng.choice("abz")
+                    seen.add(e[1])
+            ov["names"] = nn
+        if rng.random() < 0.6:
+            ov["filter_out"] = gen.random_subset(rng, sub)
+        if rng.random() < 0.4:
+            ov["stop"] = gen.random_subset(rng, sub, rng.choice([0, 0.2, 0.4]))
+        if rng.random() < 0.3:
+            ov["maxlevel"] = rng.choice([None, 1, 2, 3])
+        if ov:
+            c["seq"] = [None, ov]
+            c["seq_assign"] = rng.random() < 0.5
+            c["defaults"] = False
     return c
 
 
@@ -124,7 +151,8 @@ def mirror_spec_ok(case, drv):
 def d3_class(case, impl, drv):
     """finding D3: DOT exporters emit an edge to a child that satisfies `stop` (declared parent,
     undeclared child). Known iff the implementation equals the mirror and every line the spec lacks is an edge line."""
-    if case["kind"] == "mermaid" or not case["stop"]:
+    stops = list(case["stop"]) + [x for ov in (case.get("seq") or []) if ov for x in ov.get("stop", [])]
+    if case["kind"] == "mermaid" or not stops:
         return None
     if impl != drv["mirror"]:
         return None
